@@ -48,6 +48,11 @@ def locate(root, case):
         out.append(('callback', _child(ns, 'callback', 'Handler'), False))
     elif c == 'signal':
         out.append(('signal', _child(_child(ns, 'class', 'Obj'), 'glib:signal', 'sig'), False))
+    elif c == 'ctor':
+        host = {'rec': ('record', 'Rec'), 'box': ('record', 'Box'), 'obj': ('class', 'Obj')}[case['kind']]
+        h = _child(ns, host[0], host[1])
+        name = 'new_with_x' if case['layout'] == 1 else 'new'
+        out.append(('constructor', _child(h, 'constructor', name) if h is not None else None, False))
     else:
         cls = _child(ns, 'class', 'Obj')
         if c == 'vfunc_inv':
@@ -376,7 +381,7 @@ def sites():
     for c in G.CALLABLES:
         for layout, site in G.site_positions(c):
             for k in G.KIND_ORDER:
-                if G.kind_ok(c, site, k):
+                if G.kind_ok(c, site, k) and not (c == 'ctor' and layout == 1 and k != 'obj'):
                     out.append((c, layout, site, k))
     # annotations on the length parameter of an in / out / inout array, declared after (2) and before (3) it
     for c in LEN_CALLABLES:
@@ -397,7 +402,7 @@ QUICK_PAIR_SITES = {('function', 0, 'p'), ('function', 0, 'ret'), ('method', 1, 
 TRIPLE_CALLABLES = ('function', 'method', 'callback', 'signal')
 
 
-def ann_sets(tier, callable_, layout, site):
+def ann_sets(tier, callable_, layout, site, kind=None):
     """Deterministic list of annotation lists for one site (simplest first)."""
     if layout >= 2:
         out = []
@@ -407,6 +412,12 @@ def ann_sets(tier, callable_, layout, site):
             for a in G.LEN_ANNS:
                 out.append(arr + [a])
             out.append(arr + ['@n optional', '@n nullable'])
+        return out
+    if callable_ == 'ctor':
+        out = [[a] for a in G.CTOR_MENU]
+        for t in G.TRANSFER:
+            out.append([t, 'nullable'])
+            out.append([t, 'skip'])
         return out
     menu = list(menu_for(site))
     if site == 'p' and callable_ in ('method', 'vfunc', 'vfunc_inv'):
@@ -430,7 +441,7 @@ def ann_sets(tier, callable_, layout, site):
                             nfam = len(set(0 if x in inter[0] else 1 if x in inter[1] else 2 for x in t))
                             if nfam >= 2:
                                 out.append(t)
-    elif (callable_, layout, site) in QUICK_PAIR_SITES:
+    elif (callable_, layout, site) in QUICK_PAIR_SITES and not (kind in G.QUALIFIED_PTR and callable_ != 'function'):
         # quick: pairs inside the interacting families only, on one position per callable kind
         fam = G.INTERACT_DIR + G.INTERACT_NULL + G.INTERACT_ARR + ['type utf8', 'closure ctx', 'destroy dn',
                                                                    'scope call']
@@ -501,7 +512,7 @@ def _work(chunk):
     myviol = []
     for (c, layout, site, kind) in site_list:
         part.add(states=1, evaluations=1)       # the baseline node
-        sets = ann_sets(tier, c, layout, site)
+        sets = ann_sets(tier, c, layout, site, kind)
         cache = {}
 
         def rules_of(anns, count=False):
